@@ -658,7 +658,13 @@ def _parse_phase_numpydoc_and_google(
 
     # Handle stuff after the Args, e.g., usage notes; doctests; references.
     afterward_idx = next(
-        (idx for idx, elem in enumerate(scanned_params) if elem[0].endswith(":")), None
+        (
+            idx
+            for idx, elem in enumerate(scanned_params)
+            # `name :` is a parameter without a type, not the heading of a trailing section
+            if elem[0].endswith(":") and not elem[0].endswith(" :")
+        ),
+        None,
     )
     if afterward_idx:
         scanned_params, scanned_afterward = (
